@@ -100,7 +100,7 @@ Definition parse_root (l : list N) : option root :=
 (** ** The checksum *)
 
 Fixpoint le_bytes (k : nat) (n : N) : list N :=
-  match k with O => [] | S k' => (n mod 256)%N :: le_bytes k' (n / 256)%N end.
+  match k with O => [] | S k' => N.land n 255 :: le_bytes k' (N.shiftr n 8) end.
 
 Definition sip_opt (o : option N) : list N :=
   match o with Some v => 1%N :: le_bytes 8 v | None => [0%N] end.
